@@ -83,9 +83,10 @@ impl FeelYearsAndMonthsDuration {
 impl std::fmt::Display for FeelYearsAndMonthsDuration {
   fn fmt(&self, f: &mut std::fmt::Formatter<'_>) -> std::fmt::Result {
     let sign = if self.0 < 0 { "-" } else { "" };
-    let mut month = self.0.abs();
-    let year = month / MONTHS_IN_YEAR;
-    month -= year * MONTHS_IN_YEAR;
+    // the absolute value of the smallest number of months does not fit in i64
+    let mut month = self.0.unsigned_abs();
+    let year = month / MONTHS_IN_YEAR.unsigned_abs();
+    month -= year * MONTHS_IN_YEAR.unsigned_abs();
     match (year > 0, month > 0) {
       (false, false) => write!(f, "P0M"),
       (false, true) => write!(f, "{}P{}M", sign, month),
